@@ -226,9 +226,10 @@ def instr(res, idx, tier):
             touches_masks = row.cls.startswith(("Cps", "Msr"))
             # trap / disable controls of SMC, WFE, WFI: HCR.{TSC,TWE,TWI} and SCR.SCD, both polarities
             trappable = row.cls.startswith(("Smc", "Wfe", "Wfi"))
-            for (cname, cfg), mode, ns, v, it, aifsel, trap in itertools.product(
+            for (cname, cfg), mode, ns, v, it, aifsel, trap, ev in itertools.product(
                     CONFIGS[1:3], MODES, (0, 1), V, (0,) if row.iset == A32 else (0, 0xE8),
-                    (0, 1) if touches_masks else (None,), (0, 1, 2) if trappable else (0,)):
+                    (0, 1) if touches_masks else (None,), (0, 1, 2) if trappable else (0,),
+                    (False, True) if row.cls.startswith("Wfe") else (None,)):
                 full = dict(machine.base_config())
                 full.update(cfg)
                 if not valid_state(full, mode, ns):
@@ -246,12 +247,12 @@ def instr(res, idx, tier):
                          "elr_hyp": 0x00010B00, "event_register": bool(res.cases & 2)}
                 if trap == 1 and full.get("have_virt_ext"):
                     extra["hcr"] = (1 << 19) | (1 << 14) | (1 << 13)
-                    if row.cls.startswith("Wf"):
-                        extra["event_register"] = False
+                if ev is not None:
+                    extra["event_register"] = ev      # WFE: a pending event is consumed before HCR.TWE is looked at
                 elif trap == 2:
                     extra["scr"] |= 1 << 7
                 res.cases += 1
-                res.add_state(hash((word, cname, mode, ns, v, it, aifsel, trap)))
+                res.add_state(hash((word, cname, mode, ns, v, it, aifsel, trap, ev)))
                 aif = (0b111, 0b000)[aifsel] if aifsel is not None else (0b111, 0b000, 0b101, 0b010)[(res.cases >> 7) & 3]
                 diffs, out, info = e.run(word, row, f, mode, regvals, nzcvq=(res.cases >> 2) & 0x1F, ge=0x5, it=it, extra=extra,
                                          aif=aif)
